@@ -6,8 +6,9 @@
 // operation that returned an error must have left the enumeration unchanged. Which commits
 // succeed is not predicted.
 //
-// Samples are 8-byte values holding consecutive timestamps from the writer's start, so an
-// exact offset resolver for Delete can be computed from the stored bytes themselves.
+// Samples are 8-byte values; for Delete's offset resolvers sample i of a domain that starts at
+// S counts as taken at S+i (a convention that is consistent with every stored domain whatever
+// the commit ends were: offset 0 at the domain's start, monotone, bounded by the domain's size).
 package verif_c03_test
 
 import (
@@ -279,7 +280,6 @@ func executeLoose(sc LScript, rep *kit.Report) error {
 			if len(ws) > 0 {
 				rep.Class("delete-beside-open-writers")
 			}
-			// exact resolvers from the stored bytes: every stored sample is its own timestamp
 			stored := before
 			fired := false
 			resolver := func(isEnd bool) domain.OffsetResolver {
@@ -316,18 +316,18 @@ func executeLoose(sc LScript, rep *kit.Report) error {
 							rep.Class("insert-inside-delete-refused")
 						}
 					}
+					// sample i of a domain starting at S counts as taken at S+i: offset 0 at the
+					// domain's start, monotone, at most the domain's size
+					count := int64(ts) - int64(domainStart)
+					if count < 0 {
+						count = 0
+					}
 					for _, d := range stored {
-						if d.S == int64(domainStart) {
-							n := 0
-							for o := 0; o+8 <= len(d.data); o += 8 {
-								if int64(binary.LittleEndian.Uint64(d.data[o:])) < int64(ts) {
-									n++
-								}
-							}
-							return telem.Size(8 * n), ts, nil
+						if d.S == int64(domainStart) && count > int64(len(d.data)/8) {
+							count = int64(len(d.data) / 8)
 						}
 					}
-					return 0, ts, fmt.Errorf("resolver: no stored domain starts at %d", int64(domainStart))
+					return telem.Size(8 * count), ts, nil
 				}
 			}
 			operr = e.db.Delete(e.ctx, telem.TimeRange{Start: telem.TimeStamp(op.A), End: telem.TimeStamp(op.B)}, resolver(false), resolver(true))
